@@ -1,4 +1,5 @@
 import ChythonModel.Proofs.C05SearchSound
+import ChythonModel.Model.C05Full
 /-!
 # C05 — the search never yields the same Kekulé form twice (prepared components without ambiguous atoms)
 -/
@@ -369,5 +370,36 @@ theorem component_nodup {rings : Adj} (G : GraphOK rings) (db0 : List Nat) (buf 
     (kekuleComponent rings db0 [] buf limit).1.Pairwise Differ := by
   rw [component_yields_eq]
   exact searchRaw_nodup G db0 limit
+
+/-- the paths `kekuleFull` writes into the molecule: one Kekulé form per component -/
+theorem firstYields_sound (buf : Nat) : ∀ (cs : List C05F.Comp) (ys : List Path),
+    (∀ c ∈ cs, GraphOK c.rings ∧ c.pyr = []) → C05F.firstYields buf cs = .ok ys →
+    List.Forall₂ (fun c y => KekuleFormOf c.rings c.db y) cs ys := by
+  intro cs
+  induction cs with
+  | nil =>
+    intro ys _ h
+    simp only [C05F.firstYields] at h
+    cases h
+    exact List.Forall₂.nil
+  | cons c cs ih =>
+    intro ys hc h
+    simp only [C05F.firstYields] at h
+    split at h
+    · rename_i y tl st hk
+      cases hrest : C05F.firstYields buf cs with
+      | error o => simp [hrest, Except.map] at h
+      | ok ys' =>
+        simp only [hrest, Except.map] at h
+        cases h
+        obtain ⟨G, hp⟩ := hc c List.mem_cons_self
+        refine List.Forall₂.cons ?_ (ih ys' (fun c' hc' => hc c' (List.mem_cons_of_mem _ hc')) hrest)
+        have := component_sound G c.db buf (buf + 2) y
+        rw [← hp] at this
+        apply this
+        rw [hk]
+        exact List.mem_cons_self
+    · cases h
+    · cases h
 
 end ChythonModel.Proofs.C05S
